@@ -93,15 +93,20 @@ class Engine:
         self._fresh = {}
         recorder.install()
 
-    def new(self, clear_every=20, mem_gb=4, freeze=True, attach=True):
+    def new(self, clear_every=20, mem_gb=4, freeze=True, attach=True, loader="freeze"):
         import aurel.core as core
         kw = dict(verbose=False, clear_cache_every_nbr_calc=clear_every, memory_threshold_inGB=mem_gb, lmax=2)
         kw.update(self.opts)
         rel = core.AurelCore(self.fd, **kw)
-        for k, v in self.inputs.items():
-            rel.data[k] = v.copy()
-        if freeze:
-            rel.freeze_data()
+        if loader == "load_data":
+            # the documented way of loading one iteration of simulation data: copies into data and freezes
+            sim = {k: [np.zeros_like(v), v.copy()] for k, v in self.inputs.items()}
+            rel.load_data(sim, 1)
+        else:
+            for k, v in self.inputs.items():
+                rel.data[k] = v.copy()
+            if freeze:
+                rel.freeze_data()
         rec = recorder.Recorder(rel) if attach else None
         return rel, rec
 
@@ -148,14 +153,15 @@ class Engine:
         return self._fresh[key]
 
     # ------------------------------------------------------------------
-    def replay(self, history, clear_every=20, mem_tiny=False, freeze=True, onshell=False, importance=None, readonly=False):
+    def replay(self, history, clear_every=20, mem_tiny=False, freeze=True, onshell=False, importance=None, readonly=False, loader="freeze"):
         """Returns dict(events=[...], findings=[(pid, signature, what, replaydata)], info)."""
         findings = []
         setting = {"history": list(history), "clear_every": clear_every, "mem_tiny": mem_tiny, "freeze": freeze,
                    "presentation": self.presentation, "opts": self.opts, "seed": self.seed,
                    "importance": importance or {}}
         mem = 1e-9 if mem_tiny else 4
-        rel, rec = self.new(clear_every, mem, freeze)
+        rel, rec = self.new(clear_every, mem, freeze, loader=loader)
+        setting["loader"] = loader
         for k, v in (importance or {}).items():
             rel.var_importance[k] = v
         input_keys = list(self.inputs)
